@@ -260,13 +260,26 @@ def nav(ctx):
         if isinstance(e['_S'], ast.Name) and e['_S'].id == s.get('acc'):
             tr.append(('union', src(e['_V'])))
             return True
+        if isinstance(e['_S'], ast.Name):
+            # grown in place although it is not a set this function created (e.g. the live partner set of a link)
+            tr.append(('alias-union', src(e['_S']), src(e['_V'])))
+            return True
         return False
+
+    def none_test(e, s, tr):
+        x = absint.strip0(e['_X'])
+        if isinstance(x, ast.Constant) and x.value is None:
+            return True
+        if isinstance(x, ast.Call):
+            return False          # the result of a navigation is a collection, never None
+        return None
     def add_one(e, s, tr):
         if isinstance(e['_S'], ast.Name) and e['_S'].id == s.get('acc'):
             tr.append(('add', src(e['_V'])))       # a single element (possibly None) instead of the union of the step's results
             return True
         return False
-    it = absint.Interp(fn, [('_K in self.links', direct), ('_K not in self.links', lambda e, s, tr: (None if direct(e, s, tr) is None else not direct(e, s, tr)))],
+    it = absint.Interp(fn, [('_K in self.links', direct), ('_K not in self.links', lambda e, s, tr: (None if direct(e, s, tr) is None else not direct(e, s, tr))),
+                            ('_X is None', none_test), ('_X is not None', lambda e, s, tr: (None if none_test(e, s, tr) is None else not none_test(e, s, tr)))],
                        [('_S = xtuml.OrderedSet()', new_set), ('_S = OrderedSet()', new_set), ('_S |= _V', union), ('_S.update(_V)', union),
                         ('_S.add(_V)', add_one)],
                        iters=[('_L.navigate(_I)', assoc_elems)])
